@@ -74,23 +74,28 @@ def minWeight (eps : List Endpoint) : α :=
 def scaleOf (eps : List Endpoint) (minSize maxSize : Nat) : α :=
   RingArith.min (div (ceil (mul (minWeight eps) (ofNat minSize))) (minWeight eps)) (ofNat maxSize)
 
-/-- `for currentHashes < targetHashes { …; idx++; currentHashes++ }`: number of iterations and the
-    new `currentHashes` (fuel bounds the loop; the driver passes maxRingSize + 2). -/
-def fillLoop (target : α) : Nat → α → Nat → Nat × α
-  | 0, cur, n => (n, cur)
-  | fuel + 1, cur, n => if lt cur target then fillLoop target fuel (add cur (ofNat 1)) (n + 1) else (n, cur)
+/-- `for currentHashes < targetHashes && uint64(len(items)) < maxRingSize { …; idx++; currentHashes++ }`
+    (the second conjunct is the F14 repair, /repo commit 9cc3b57): number of iterations and the new
+    `currentHashes`; `len` is `len(items)` on entry (fuel bounds the loop; the driver passes
+    maxRingSize + 2). -/
+def fillLoop (target : α) (maxSize : Nat) : Nat → α → Nat → Nat → Nat × α
+  | 0, cur, n, _ => (n, cur)
+  | fuel + 1, cur, n, len =>
+    if lt cur target && decide (len < maxSize) then fillLoop target maxSize fuel (add cur (ofNat 1)) (n + 1) (len + 1)
+    else (n, cur)
 
-/-- the outer loop over the (key-sorted) endpoints: entries per endpoint -/
-def countsLoop (scale : α) (sum fuel : Nat) : List Endpoint → α → α → List Nat
-  | [], _, _ => []
-  | e :: es, cur, target =>
+/-- the outer loop over the (key-sorted) endpoints: entries per endpoint; `len` = `len(items)` so far -/
+def countsLoop (scale : α) (sum maxSize fuel : Nat) : List Endpoint → α → α → Nat → List Nat
+  | [], _, _, _ => []
+  | e :: es, cur, target, len =>
     let target' := add target (mul scale (normWeight sum e))
-    let (n, cur') := fillLoop target' fuel cur 0
-    n :: countsLoop scale sum fuel es cur' target'
+    let (n, cur') := fillLoop target' maxSize fuel cur 0 len
+    n :: countsLoop scale sum maxSize fuel es cur' target' (len + n)
 
 /-- entries per endpoint, in key order -/
 def ringCounts (eps : List Endpoint) (minSize maxSize : Nat) : List Nat :=
-  countsLoop (scaleOf (α := α) eps minSize maxSize) (weightSum eps) (maxSize + 2) (sortByKey eps) (ofNat 0) (ofNat 0)
+  countsLoop (scaleOf (α := α) eps minSize maxSize) (weightSum eps) maxSize (maxSize + 2) (sortByKey eps)
+    (ofNat 0) (ofNat 0) 0
 
 /-- a ring entry: hash, endpoint (position in key order), per-endpoint index -/
 structure RingEntry where
